@@ -188,7 +188,7 @@ func runC05(c *core.Ctx) {
 	variants := c05EPVariants()
 	sess := &saml.Session{ID: "s1", NameID: "alice", UserName: "alice", CreateTime: samlgen.T0, ExpireTime: samlgen.T0.Add(time.Hour), Index: "i1"}
 	mkIDP := func(md *saml.EntityDescriptor) *saml.IdentityProvider {
-		idp := harness.NewIDP("idpec", harness.SPRegistry{md.EntityID: md}, sess)
+		idp := harness.ReuseIDP("idpec", harness.SPRegistry{md.EntityID: md}, sess) // one IdentityProvider value for the whole worker
 		idp.Signer = samlgen.Key("idpec").Key
 		idp.Key = nil
 		idp.SignatureMethod = dsig.ECDSASHA256SignatureMethod
